@@ -361,6 +361,27 @@ def work_around_known_initial_tensor_defect(orig, imp):
     return False
 
 
+def build_pt_x(inp, name, d, N, bond, rank, transforms, dt=0.1):
+    """checks.c03.build_pt plus EXACTLY ONE fully symbolic transform ('in_full' / 'out_full');
+    'in' / 'out' (one sparse transform) are handled by build_pt itself"""
+    if transforms not in ("in_full", "out_full"):
+        return build_pt(inp, name, d, N, bond, rank, transforms, dt=dt)
+    from checks.c03 import _apply_tr
+    D = d * d
+    base, Meff, caps = build_pt(inp, name, d, N, bond, rank, False, dt=dt)
+    T = inp.arr(name + ("Ti" if transforms == "in_full" else "To"), (D, D))
+    tin, tout = (T, None) if transforms == "in_full" else (None, T)
+    pt = ptm.SimpleProcessTensor(hilbert_space_dimension=d, dt=dt, transform_in=tin, transform_out=tout)
+    for k in range(N):
+        pt.set_mpo_tensor(k, base._mpo_tensors[k])
+    for k in range(N + 1):
+        pt.set_cap_tensor(k, caps[k])
+    return pt, [_apply_tr(M, tin, tout) for M in Meff], caps
+
+
+TR_NAMES = {False: "notr", True: "tr", "full": "trfull", "in": "trin", "out": "trout", "in_full": "trinfull", "out_full": "troutfull"}
+
+
 class H1(Case):
     functions = ("SimpleProcessTensor.export", "FileProcessTensor.__init__", "FileProcessTensor._create_file",
                  "FileProcessTensor._read_file", "FileProcessTensor.close", "_set_data_and_shape", "_get_data_and_shape",
@@ -370,12 +391,13 @@ class H1(Case):
     env = ENV
     real_env = {}
 
-    def __init__(self, kind, N, bond, rank, transforms, dt, overwrite=False, named=True, oracle=False, d=2):
+    def __init__(self, kind, N, bond, rank, transforms, dt, overwrite=False, named=True, oracle=False, d=2, direct=False):
         self.kind, self.N, self.bond, self.rank, self.transforms, self.dt = kind, N, bond, rank, transforms, dt
         self.overwrite, self.named, self.oracle, self.d = overwrite, named, oracle, d
-        self.id = "H1/%s_N%d_b%d_r%d_%s_dt%s%s%s%s" % (kind, N, bond, rank, {False: "notr", True: "tr", "full": "trfull"}[transforms],
-                                                       dt, "_ow" if overwrite else "", "" if named else "_unnamed",
-                                                       "_oracle" if oracle else "")
+        self.direct = direct      # write through a FileProcessTensor created directly instead of export()
+        self.id = "H1/%s_N%d_b%d_r%d_%s_dt%s%s%s%s%s" % (kind, N, bond, rank, TR_NAMES[transforms],
+                                                         dt, "_ow" if overwrite else "", "" if named else "_unnamed",
+                                                         "_oracle" if oracle else "", "_direct" if direct else "")
         self.bounds = {"d": d, "N": N, "bond": bond, "rank": rank, "transforms": str(transforms), "dt": str(dt),
                        "import_type": kind}
         self.timeout_s = 300
@@ -387,7 +409,7 @@ class H1(Case):
                 dt = inp.real("dt", lo=0.01, hi=1)
             else:
                 dt = {"none": None, "c": 0.1}[self.dt]
-            pt, Meff, caps = build_pt(inp, "e", d, N, self.bond, self.rank, self.transforms, dt=dt)
+            pt, Meff, caps = build_pt_x(inp, "e", d, N, self.bond, self.rank, self.transforms, dt=dt)
             if self.named:
                 pt.name = "a process tensor"
                 pt.description = "two\nlines"
@@ -396,10 +418,22 @@ class H1(Case):
                 # an older, different file is in the way and overwriting is requested
                 old, _, _ = build_pt(inp, "o", d, 1, 1, 4, False, dt=0.5)
                 old.export(fn)
-                pt.export(fn, overwrite=True)
+            if self.direct:
+                f = ptm.FileProcessTensor(mode="overwrite" if self.overwrite else "write", filename=fn, hilbert_space_dimension=d,
+                                          dt=dt, transform_in=pt.transform_in, transform_out=pt.transform_out,
+                                          **({"name": pt.name, "description": pt.description} if self.named else {}))
+                try:
+                    for k in range(N):
+                        f.set_mpo_tensor(k, pt._mpo_tensors[k])
+                    for k in range(N + 1):
+                        f.set_cap_tensor(k, caps[k])
+                    obs0 = compare("file-backed object before close", pt, f, N, want_type=ptm.FileProcessTensor)
+                finally:
+                    f.close()
             else:
-                pt.export(fn)
-            obs = [Ob.holds("file exists after export", ws.exists(fn))]
+                obs0 = []
+                pt.export(fn, overwrite=self.overwrite)
+            obs = obs0 + [Ob.holds("file exists after export", ws.exists(fn))]
             imp, _ = _import(fn, self.kind)
             try:
                 work_around_known_initial_tensor_defect(pt, imp)
@@ -811,6 +845,11 @@ def cases(tier):
            H1("file", 2, 2, 4, "full", "none", named=False), H1("simple", 2, 2, 3, "full", "c", overwrite=True),
            H1("file", 3, 2, 4, False, "sym"), H1("simple", 3, 2, 3, True, "sym", named=False),
            H1("file", 3, 2, 3, False, "c", overwrite=True), H1("simple", 3, 2, 4, False, "none")]
+    # exactly one of the two transforms (sparse and full), export and direct file creation
+    cs += [H1("file", 2, 2, 4, "in", "c", oracle=True), H1("simple", 2, 2, 3, "out", "c", oracle=True),
+           H1("simple", 1, 1, 4, "in_full", "none", direct=True), H1("file", 2, 2, 3, "out_full", "c", direct=True),
+           H1("file", 1, 1, 3, "out", "c", direct=True, overwrite=True), H1("simple", 2, 2, 4, "in", "sym", direct=True),
+           H1("file", 2, 2, 4, "out_full", "none", named=False), H1("simple", 2, 2, 3, "in_full", "c")]
     cs += [H1Init("none_simple"), H1Init("value_simple"), H1Init("value_set")]
     cs += [H2(2, None), H2(3, 1), H2(2, None, "real", named_file=False), H2(2, None, via_init="cunit")]
     cs += [H3("su2"), H3("gen", overwrite=True), H3("identity", named=False), H3("sy")]
@@ -827,6 +866,14 @@ def cases(tier):
                             if not any(c.id == x.id for x in cs):
                                 cs.append(c)
         cs += [H1("file", 3, 1, 4, True, "c"), H1("simple", 3, 1, 3, False, "c")]
+        for kind in ("file", "simple"):
+            for tr in ("in", "out", "in_full", "out_full"):
+                for direct in (False, True):
+                    for rank in (3, 4):
+                        c = H1(kind, 2 if rank == 4 else 3, 2, rank, tr, "c" if direct else "none", direct=direct, oracle=(rank == 4))
+                        if not any(c.id == x.id for x in cs):
+                            cs.append(c)
+        cs += [H1("file", 2, 2, 4, True, "c", direct=True), H1("simple", 3, 2, 3, "full", "none", direct=True), H1("file", 1, 1, 3, False, "sym", direct=True)]
         cs += [H2(3, 1, via_init="sy"), H2(3, None, via_init="cunit", named_file=False), H3("su2", named=False), H3("cunit", overwrite=True),
                H4("name_only"), H4("twice"), H4("description_only"), H4("name_then_description", initial=False)]
         cs += [H2(3, None), H2(3, 2, "real"), H2(2, 1, "complex"), H2(3, None, "complex", named_file=False), H2(4, 2)]
